@@ -734,6 +734,10 @@ class EbuildProcessor:
                     self.ebd_write.close()
                     self.ebd_read.close()
                     kill = False
+                else:
+                    # alive but not answering the probe (busy, or the streams are
+                    # out of step): waiting for it to exit would block forever
+                    kill = True
             except (OSError, ValueError):
                 kill = self.pid is not None
 
